@@ -410,14 +410,87 @@ Proof.
   intros Z. apply app_eq_nil in Z. tauto.
 Qed.
 
+(* ------------------------------------------------------------------ ranking aggregates *)
+Definition rk_name (g : aggf) : str :=
+  match g with
+  | GTopK _ _ _ _ => lit "top_k" | GTopKThr _ _ _ _ _ => lit "top_k_threshold"
+  | GWithin _ _ _ => lit "within_radius" | _ => [] end.
+Definition rk_params (g : aggf) : str :=
+  match g with
+  | GTopK k ord outs desc => show_N k ++ show_outs ord (is_single outs) desc outs
+  | GTopKThr k ord outs thr desc =>
+      show_N k ++ [44; 32] ++ e_disp E thr ++ show_outs ord (is_single outs) desc outs
+  | GWithin dvar outs maxd => e_disp E maxd ++ show_outs_within dvar (is_single outs) outs
+  | _ => [] end.
+Lemma show_aggf_rk g : is_ranking g = true -> show_aggf E g = rk_name g ++ 60 :: rk_params g ++ [62].
+Proof.
+  destruct g; intros R; try discriminate; cbn [show_aggf rk_name rk_params];
+    rewrite <- ?app_assoc; reflexivity.
+Qed.
+
+Lemma ident_inner v : ident v = true -> forallb innerc v = true.
+Proof.
+  unfold ident. destruct v; [discriminate|]. intros H. eapply forallb_impl; [|exact H].
+  intros c I. apply lc_innerc, idc_lc, I.
+Qed.
+Lemma show_outs_inner ord single desc outs : forallb ident outs = true ->
+  forallb innerc (show_outs ord single desc outs) = true.
+Proof.
+  induction outs as [|v outs IH]; intros H. reflexivity.
+  cbn [forallb] in H. apply andb_true_iff in H as [H1 H2].
+  cbn [show_outs]. rewrite !forallb_app, (ident_inner v H1), IH by auto.
+  destruct (str_eqb v ord); [destruct (single && desc); [|destruct desc]|]; reflexivity.
+Qed.
+Lemma show_outs_within_inner dv single outs : forallb ident outs = true ->
+  forallb innerc (show_outs_within dv single outs) = true.
+Proof.
+  induction outs as [|v outs IH]; intros H. reflexivity.
+  cbn [forallb] in H. apply andb_true_iff in H as [H1 H2].
+  cbn [show_outs_within]. rewrite !forallb_app, (ident_inner v H1), IH by auto.
+  destruct (str_eqb v dv); [destruct single|]; reflexivity.
+Qed.
+Lemma digits_inner ds : forallb is_digit ds = true -> forallb innerc ds = true.
+Proof. intros H. eapply forallb_impl; [|exact H]. intros c D. apply lc_innerc, idc_lc, digit_idc, D. Qed.
+Lemma wf_outs_idents ord outs : wf_outs ord outs = true -> forallb ident outs = true.
+Proof. unfold wf_outs. intros H. apply andb_true_iff in H as [H _]. apply andb_true_iff in H. tauto. Qed.
+
+Lemma rk_shape g v : wf_aggf E g v = true -> is_ranking g = true ->
+  forallb innerc (rk_params g) = true /\ first_is 45 (rk_params g) = false /\ v = [] /\
+  rk_name g <> [] /\ forallb idc (rk_name g) = true.
+Proof.
+  destruct g as [| | | | | |k ord outs desc|k ord outs thr desc|dv outs maxd]; intros W R; try discriminate;
+    cbn [wf_aggf] in W; cbn [rk_params rk_name].
+  - apply andb_true_iff in W as [W V]. apply andb_true_iff in W as [_ WO].
+    destruct (show_N_first_digit k) as (c & t & EQ & D).
+    repeat split; try discriminate; try reflexivity.
+    + rewrite forallb_app, (digits_inner _ (show_N_digits k)), (show_outs_inner _ _ _ _ (wf_outs_idents _ _ WO)). reflexivity.
+    + rewrite EQ. cbn [app first_is]. apply digit_not. exact D.
+    + apply str_eqb_eq. exact V.
+  - apply andb_true_iff in W as [W V]. apply andb_true_iff in W as [W DO].
+    apply andb_true_iff in W as [W _]. apply andb_true_iff in W as [_ WO].
+    destruct (show_N_first_digit k) as (c & t & EQ & D). destruct (disp_text thr DO) as [_ L].
+    repeat split; try discriminate; try reflexivity.
+    + rewrite !forallb_app, (digits_inner _ (show_N_digits k)),
+        (show_outs_inner _ _ _ _ (wf_outs_idents _ _ WO)), (forallb_impl _ _ _ lc_innerc L). reflexivity.
+    + rewrite EQ. cbn [app first_is]. apply digit_not. exact D.
+    + apply str_eqb_eq. exact V.
+  - apply andb_true_iff in W as [W V]. apply andb_true_iff in W as [W F]. apply andb_true_iff in W as [W DO].
+    apply andb_true_iff in W as [WO _]. destruct (disp_text maxd DO) as [NE L].
+    repeat split; try discriminate; try reflexivity.
+    + rewrite forallb_app, (forallb_impl _ _ _ lc_innerc L),
+        (show_outs_within_inner _ _ _ (wf_outs_idents _ _ WO)). reflexivity.
+    + apply negb_true_iff in F. destruct (e_disp E maxd); [congruence|]. exact F.
+    + apply str_eqb_eq. exact V.
+Qed.
+
 (* ------------------------------------------------------------------ every well-formed term *)
 Definition side_ok (t : term) : bool :=
   match t with TAgg _ _ => false | TVec (_ :: _ :: _) => false | _ => true end.
 
-Lemma std_agg_name g v : wf_aggf g v = true ->
-  show_aggf E g <> [] /\ forallb idc (show_aggf E g) = true /\ is_ranking g = false /\ ident v = true.
+Lemma std_agg_name g v : wf_aggf E g v = true -> is_ranking g = false ->
+  show_aggf E g <> [] /\ forallb idc (show_aggf E g) = true /\ ident v = true.
 Proof.
-  destruct g; cbn [wf_aggf]; intros H; try discriminate; (repeat split; auto; discriminate).
+  destruct g; cbn [wf_aggf is_ranking]; intros H R; try discriminate; (repeat split; auto; discriminate).
 Qed.
 
 Lemma good_term t : wf_term E t = true ->
@@ -434,14 +507,16 @@ Proof.
     split; [apply G|intros _; exact G].
   - assert (G : sgood E [95]) by (apply sgood_lc; [discriminate|reflexivity]).
     split; [apply G|intros _; exact G].
-  - (* standard aggregate *)
-    destruct (std_agg_name g v W) as (NE & I & R & IV). rewrite R.
-    split; [|discriminate].
-    unfold ident in IV. destruct v as [|c v]; try discriminate.
-    apply tgood_angle; auto.
-    + eapply forallb_impl; [|exact IV]. intros x H. apply lc_innerc. apply idc_lc. exact H.
-    + cbn [first_is forallb] in *. apply andb_true_iff in IV as [IV _].
-      apply negb_true_iff. apply idc_not45. exact IV.
+  - (* aggregates *)
+    split; [|discriminate]. destruct (is_ranking g) eqn:R.
+    + destruct (rk_shape g v W R) as (PI & F45 & -> & NE & I).
+      rewrite (show_aggf_rk g R). apply tgood_angle; auto.
+    + destruct (std_agg_name g v W R) as (NE & I & IV).
+      unfold ident in IV. destruct v as [|c v]; try discriminate.
+      apply tgood_angle; auto.
+      * eapply forallb_impl; [|exact IV]. intros x H. apply lc_innerc. apply idc_lc. exact H.
+      * cbn [first_is forallb] in *. apply andb_true_iff in IV as [IV _].
+        apply negb_true_iff. apply idc_not45. exact IV.
   - (* arithmetic *)
     bools. assert (G : sgood E (show_arith E a)) by (apply sgood_arith, good_show; auto).
     split; [apply G|intros _; exact G].
